@@ -130,3 +130,30 @@ def paf24_harnesses(sels=("SEL_READ", "SEL_WRITE")):
                                      bounds="%d channel(s), %s-endian file, 2 blocks, one call of <= 4 items (symbolic%s), staging buffer 8 ints (hook)%s" % (
                                          ch, "big" if be else "little", "; position-distinct constants for float/double writes" if isfloat and sel == "SEL_WRITE" else "", vtag)))
     return out
+
+
+def xi_split_harnesses():
+    """XI DPCM delta kernels: one call == any two-call split (harness/L3/xi_split.c)."""
+    out = []
+    T = {"s": ("short", "short", 0), "i": ("int", "int", 0), "f": ("float", "float", 1), "d": ("double", "double", 1)}
+    F = {"dsc": ("signed char", "schar"), "dles": ("short", "short")}
+    for fam in ("dsc", "dles"):
+        for t, (ctype, nd, isf) in T.items():
+            for enc in (1, 0):
+                kernel = "%s2%s_array" % (t, fam) if enc else "%s2%s_array" % (fam, t)
+                d = {"KERNEL": kernel, "ENC": enc, "HAS_NORM": isf, "N": 4, "MF_CAP": 16}
+                if enc:
+                    d.update({"SRC_T": ctype, "SRC_ND": nd, "DST_T": F[fam][0]})
+                    if isf: d["SRC_IS_FLOAT"] = 1
+                else:
+                    d.update({"SRC_T": F[fam][0], "SRC_ND": F[fam][1], "DST_T": ctype})
+                if isf:
+                    d["NORM_T"] = ctype
+                    d["NORMVAL"] = ("(1.0 * 0x7F)" if fam == "dsc" else "(1.0 * 0x7FFF)") if enc else ("(1.0 / 0x80)" if fam == "dsc" else "(1.0 / 0x8000)")
+                for kfix in ((1, 3) if isf else (None,)):
+                    dd = dict(d)
+                    if kfix is not None: dd["K_FIXED"] = kfix
+                    out.append(H("xi.split.%s%s" % (kernel[:-6], "" if kfix is None else ".k%d" % kfix), "L3/xi_split.c", link=["common"], stubs=["psf_log_printf"], defines=dd, unwind=6, checks="mem",
+                                 solver="cadical" if isf else "default", include_env=("log_stub", "memfile"), timeout=300,
+                                 functions=[kernel], bounds="4 items (symbolic), any predictor state, %s" % ("any split point 0..4" if kfix is None else "split point %d" % kfix)))
+    return out
